@@ -27,7 +27,7 @@ package zcnsc
 
 //@ func GetGlobalNode
 //@   trusted
-//@   ensures err == nil ==> result != nil && fresh(result) && result.ZCNSConfig != nil
+//@   ensures err == nil ==> result != nil && fresh(result) && result.ZCNSConfig != nil && result.MaxFee <= MAXSUPPLY
 //@   ensures err != nil ==> result == nil
 //@   modifies nothing
 
@@ -74,7 +74,7 @@ package zcnsc
 
 //@ func (*ZCNSmartContract).getStakePool
 //@   trusted
-//@   ensures err == nil ==> sp != nil && fresh(sp)
+//@   ensures err == nil ==> sp != nil && fresh(sp) && poolsMapOK(sp.StakePool) && sp.Reward <= MAXSUPPLY -- stored stake pools are well formed (coins within the supply)
 //@   modifies nothing
 
 //@ func (*StakePool).save
@@ -94,7 +94,8 @@ package zcnsc
 //@   prop C18
 //@   requires zcn != nil && trans != nil
 //@   at-call DistributeRewards assert[receiver-is-submitter] payload.ReceivingClientID == trans.ClientID
-//@   at-call DistributeRewards assert[nonce-new] $mintedNonce[payload.Nonce] && !old($mintedNonce[payload.Nonce])
+//@   dead-paths 2 -- DistributeCoin cannot fail (at least one signature); Amount - share cannot underflow (Amount >= MaxFee >= share)
+//@   at-call DistributeRewards assert[nonce-new] $mintedNonce[payload.Nonce] && !old($mintedNonce)[payload.Nonce]
 //@   at-call DistributeRewards assert[quorum] len(uniqueSignatures) >= threshold && numAuth == $numAuth && numAuth > 0
 //@   at-call DistributeRewards assert[all-verified] forall i in 0..len(uniqueSignatures) :: sig_valid($authKey[uniqueSignatures[i].ID], uniqueSignatures[i].Signature, mint_msg(payload))
 //@   at-call DistributeRewards assert[distinct] forall i in 0..len(uniqueSignatures) :: forall j in i+1..len(uniqueSignatures) :: uniqueSignatures[i].ID != uniqueSignatures[j].ID
@@ -125,6 +126,7 @@ package zcnsc
 //@ func (*MintPayload).verifySignatures
 //@   prop C18
 //@   requires mp != nil && (forall i in 0..len(signatures) :: signatures[i] != nil)
+//@   modifies $pk
 //@   ensures result == nil ==> len(signatures) > 0
 //@   ensures[verified] result == nil ==> (forall i in 0..len(signatures) :: sig_valid($authKey[signatures[i].ID], signatures[i].Signature, mint_msg(mp)))
 //@   loop 1 invariant forall k in 0..$idx+1 :: sig_valid($authKey[signatures[k].ID], signatures[k].Signature, mint_msg(mp))
